@@ -16,7 +16,7 @@ RULE = ("layouts of 1-16 keep services with 0-3 mounts each (random stream), a '
         "desired 2-4 with about that many replicas sitting on multi-mount servers with blank device ids, pulls "
         "pending, read-only replica holders, one or two classes), a multi-block stream (op cs: 1-4 blocks gathered by "
         "the real BlockStateMap from index entries and 0-3 collections each, either arrival order, run through "
-        "ComputeChangeSets and collectStatistics) plus an exhaustive product over "
+        "ComputeChangeSets and collectStatistics) plus an exhaustive product (thorough; sampled in quick) over "
         "<=3 services x <=2 mounts of structure x device sharing x class assignment x replica subset x desired "
         "replication 0-3 per class (thorough); read-only flags on mounts and services, replication 1-3 (rarely "
         "<=0), device ids blank/unique/shared across servers, mtimes old/new/colliding, random block hashes so "
@@ -761,9 +761,9 @@ def _partitions_cross(mounts):
     yield from rec(0, [], [])
 
 
-def exhaustive_specs(max_mounts):
+def exhaustive_specs(max_mounts, ks=(1, 2, 3)):
     """Yields (counts, devassign, classbits, havebits, d_default, d_special)."""
-    for k in (1, 2, 3):
+    for k in ks:
         for counts in itertools.product((1, 2), repeat=k):
             M = sum(counts)
             if M > max_mounts:
@@ -830,6 +830,9 @@ def generate(rng, tier):
         specs4 = [sp for sp in itertools.islice(exhaustive_specs(6), 0, None, 997)]
         for sp in rng.sample(specs4, min(len(specs4), 700)):
             cases.append(_spec_case(rng, sp))
+        specs5 = [sp for sp in itertools.islice(exhaustive_specs(5, ks=(4,)), 0, None, 2003)]
+        for sp in rng.sample(specs5, min(len(specs5), 300)):
+            cases.append(_spec_case(rng, sp))
         for _ in range(2500):
             cases.append(_concentrated_case(rng))
         for _ in range(1500):
@@ -848,6 +851,11 @@ def generate(rng, tier):
         for n, sp in enumerate(exhaustive_specs(6)):
             M = sum(sp[0])
             if M <= 5 or (n + off) % 3 == 0:
+                cases.append(_spec_case(rng, sp))
+        # four services (the quantifier's "up to 4 services x 2 mounts"): all structures with <= 5 mounts,
+        # every 9th combination
+        for n, sp in enumerate(exhaustive_specs(5, ks=(4,))):
+            if (n + off) % 9 == 0:
                 cases.append(_spec_case(rng, sp))
     nbad = 60 if tier == "quick" else 600
     for _ in range(nbad):
